@@ -5,7 +5,7 @@
    geometry-level predicates being exact (contains => intersects, self
    containment, rect-as-polygon for polygon pairs) are checked on every run as
    law flags computed from the implementation's own answers. *)
-From GJ Require Import Base Kernel Series Ring Pairs Obj ObjSpec ObjProofs.
+From GJ Require Import Base Kernel Series Ring Pairs Obj ObjSpec ObjProofs BoxLaws ContainsBoxes.
 Open Scope Z_scope.
 
 Theorem C09_within_is_contains_swapped : forall a b, o_within a b = o_contains b a.
@@ -43,6 +43,17 @@ Theorem C09_leaf_intersects : forall a b ga gb,
   leaf_geom a = Some ga -> leaf_geom b = Some gb -> o_intersects a b = g_intersects gb ga.
 Proof. exact leaf_intersects. Qed.
 
+(* if A intersects B their rectangles intersect: every pair of the eleven kinds, any nesting *)
+Theorem C09_intersects_implies_rects_meet : forall a b, obj_wf a -> obj_wf b ->
+  o_intersects a b = true -> rect_intersects_rect (o_rect a) (o_rect b) = true.
+Proof. exact o_intersects_boxes. Qed.
+(* if A contains a non-empty B their rectangles meet (the covering of B's rectangle is checked as a flag) *)
+Theorem C09_contains_implies_rects_meet_partial : forall a b, obj_wf a -> obj_wf b -> o_empty b = false ->
+  o_contains a b = true -> rect_intersects_rect (o_rect a) (o_rect b) = true.
+Proof. exact o_contains_boxes. Qed.
+
+Print Assumptions C09_intersects_implies_rects_meet.
+Print Assumptions C09_contains_implies_rects_meet_partial.
 Print Assumptions C09_feature_argument_contains.
 Print Assumptions C09_simplepoint_argument.
 Print Assumptions C09_leaf_contains.
